@@ -323,11 +323,19 @@ def source_facts(repo_src: pathlib.Path):
     for node in ast.walk(fn):
         if isinstance(node, ast.Call):
             dn = Scanner._dotted(node.func) or ""
-            if dn == "UniqueNameGenerator.reset" and reset_line is None:
-                reset_line = node.lineno
+            if dn == "UniqueNameGenerator.reset" and reset_line is None and not node.args and not node.keywords:
+                reset_line = node.lineno      # a reset of ALL domains: no argument
             if dn.endswith("_generate_with_line_buffer") or dn == "output_file.write":
                 consume_line = node.lineno if consume_line is None else min(consume_line, node.lineno)
-    facts["resets_unique_names_per_file"] = bool(reset_line is not None and consume_line is not None and reset_line < consume_line)
+    # ... and reset() replaces the whole singleton unconditionally (every domain of the index map)
+    rdef = find_def("nunavut/lang/_common.py", "reset", "UniqueNameGenerator")
+    full = False
+    for st in rdef.body:
+        if isinstance(st, ast.Assign) and len(st.targets) == 1 and Scanner._dotted(st.targets[0]) == "cls._singleton" and \
+                isinstance(st.value, ast.Call) and Scanner._dotted(st.value.func) == "cls" and not st.value.args:
+            full = True
+    facts["unique_name_reset_clears_all_domains"] = full
+    facts["resets_unique_names_per_file"] = bool(full and reset_line is not None and consume_line is not None and reset_line < consume_line)
 
     # 2. IncludeGenerator sorts when asked to
     fn = find_def("nunavut/lang/_common.py", "generate_include_filepart_list", "IncludeGenerator")
